@@ -13,9 +13,13 @@ TInit == /\ tid \in 1 .. Len(Batch) /\ l = 1
 Pt(q) == [f \in 0 .. T.nfeat - 1 |-> q[f + 1]]
 \* observed box: sequence (one per feature row) of <<lo, hi>>
 ObsBox(b) == [f \in 0 .. Len(b) - 1 |-> <<b[f + 1][1], b[f + 1][2]>>]
+\* a box is a set of points: how many rows the returned array has (features never tested on the path may be left out or
+\* be listed as unbounded) is representation
+Side(b, f) == IF f \in DOMAIN b THEN b[f] ELSE <<NegInf, PosInf>>
+SameBox(b1, b2) == \A f \in DOMAIN b1 \cup DOMAIN b2 : Side(b1, f) = Side(b2, f)
 BadLeaves == {j \in 1 .. Len(T.ranges) :
                  LET r == T.ranges[j] IN
-                 ~r.raised /\ ObsBox(r.box) # NodeRange(r.leaf)}
+                 ~r.raised /\ ~SameBox(ObsBox(r.box), NodeRange(r.leaf))}
 Raised == {j \in 1 .. Len(T.ranges) : T.ranges[j].raised /\ NodeRangeDefined(T.ranges[j].leaf)}
 \* the user-level meaning, evaluated on the OBSERVED boxes and the logged query points
 BadBox == {<<j, q>> \in (1 .. Len(T.ranges)) \X (1 .. Len(T.queries)) :
